@@ -88,3 +88,91 @@ func checkLookupDisabled(rep *report.Report) {
 	}
 	sec.States, sec.Transitions = sec.Evaluations, sec.Evaluations
 }
+
+// checkLookupAnswers: one lookup of an unknown name under every combination of environment
+// answers: the service answers {value, error, not found} and the cache write the lookup causes
+// {succeeds, fails}. Whatever LookupSecret reports must agree with what it left behind: an error
+// means nothing was installed (not in the store, not polled afterwards, the next lookup asks the
+// service again); success means a working handle whose secret is polled from then on.
+func checkLookupAnswers(rep *report.Report) {
+	sec := rep.Add(&report.Section{Name: "one-lookup-every-environment-answer", Engine: "enum", Exhaustive: true,
+		Rule: "AllowLookup=true, one declared secret: LookupSecret(unknown name) × service answer {value, error, not found} × the cache write caused by the lookup {ok, fails} × cache {none, present}; reported error ⇒ name absent from the store, not requested by the next poll, and a second lookup sends a new request; reported success ⇒ handle yields the served bytes, the next poll asks for the name, and (cache write ok) the cache holds it; non-trivial = combinations with a failing answer"})
+	for _, svcAns := range []string{"value", "error", "notfound"} {
+		for _, cacheMode := range []string{"none", "ok", "write-fails"} {
+			desc := fmt.Sprintf("service=%s cache=%s", svcAns, cacheMode)
+			sec.Evaluations++
+			if svcAns != "value" || cacheMode == "write-fails" {
+				sec.Nontrivial++
+			}
+			svc := NewSvc()
+			svc.Put("d")
+			if svcAns != "notfound" {
+				svc.Put("u")
+			}
+			if svcAns == "error" {
+				svc.FailNext("u", 1)
+			}
+			var c *HCache
+			cfg := setec.StoreConfig{Client: svc, Secrets: []string{"d"}, AllowLookup: true, PollInterval: -1, Logf: func(string, ...any) {}}
+			if cacheMode != "none" {
+				c = &HCache{}
+				cfg.Cache = c
+			}
+			st, err := setec.NewStore(context.Background(), cfg)
+			if err != nil {
+				panic(err)
+			}
+			if cacheMode == "write-fails" {
+				c.FailNext = true
+			}
+			bad := func(kind, msg string) {
+				rep.Violate(sec.Name, "lookup-answer/"+kind+": "+desc, desc+": "+msg, nil)
+			}
+			h, lerr := st.LookupSecret(context.Background(), "u")
+			_, installed := st.VerifDump()["u"]
+			n0 := len(svc.Log)
+			if rerr := st.Refresh(context.Background()); rerr != nil && cacheMode != "write-fails" {
+				bad("refresh", "the poll after the lookup failed: "+rerr.Error())
+			}
+			polled := false
+			for _, r := range svc.Log[n0:] {
+				if r.Name == "u" {
+					polled = true
+				}
+			}
+			switch {
+			case lerr != nil:
+				if svcAns == "value" && cacheMode != "write-fails" {
+					bad("spurious-error", "the service answered and the cache works, yet LookupSecret failed: "+lerr.Error())
+				}
+				if installed {
+					bad("failed-but-installed", fmt.Sprintf("LookupSecret reported %q, yet the secret is in the store's active set", lerr))
+				}
+				if polled {
+					bad("failed-but-polled", fmt.Sprintf("LookupSecret reported %q, yet the next poll asked the service for the name", lerr))
+				}
+			default:
+				if svcAns != "value" {
+					bad("no-error", "the service did not serve the secret, yet LookupSecret succeeded")
+					break
+				}
+				_, want, _ := svc.Active("u")
+				if got := string(h.Get()); got != want {
+					bad("handle", fmt.Sprintf("the handle yields %q, the service served %q", got, want))
+				}
+				if !installed || !polled {
+					bad("not-kept", fmt.Sprintf("after a successful lookup: in the store=%v, polled=%v", installed, polled))
+				}
+				if cacheMode == "ok" {
+					doc, perr := parseCache(c.Data)
+					if perr != nil || doc["u"] == nil || doc["u"].Secret == nil || string(doc["u"].Secret.Value) != want {
+						bad("not-cached", "after a successful lookup the cache does not hold the secret")
+					}
+				}
+			}
+			sec.Samples = append(sec.Samples, fmt.Sprintf("%s -> err=%v installed=%v polled=%v", desc, lerr, installed, polled))
+			st.Close()
+		}
+	}
+	sec.States, sec.Transitions = sec.Evaluations, sec.Evaluations
+}
